@@ -55,7 +55,7 @@ func runAmplification(w *bufio.Writer, seed uint64, n int, _ []string) {
 		ampCase(w, r.Fork(), i, dist)
 	}
 	ampClientCases(w, r.Fork(), dist)
-	for _, k := range []string{"cases", "nontrivial", "ops", "send-permitted", "send-blocked", "send-blocked-unvalidated", "boundary-hit", "recv-coalesced", "close", "close-sent", "close-suppressed", "closed-recv", "closed-retransmit", "timeout-fired", "timeout-not-due", "ack", "validated-by-handshake", "validated-at-start", "never-validated", "pto-mode", "coalesced", "datagram>3x-first", "tiny-recv", "client-perspective"} {
+	for _, k := range []string{"cases", "nontrivial", "ops", "send-permitted", "send-blocked", "send-blocked-unvalidated", "boundary-hit", "recv-coalesced", "read-keys", "read-keys-nonempty", "close", "close-sent", "close-suppressed", "closed-recv", "closed-retransmit", "timeout-fired", "timeout-not-due", "ack", "validated-by-handshake", "validated-at-start", "never-validated", "pto-mode", "coalesced", "datagram>3x-first", "tiny-recv", "client-perspective"} {
 		fmt.Fprintf(w, "DIST\t%s\t%d\n", k, dist[k])
 	}
 }
@@ -131,10 +131,10 @@ func ampCase(w *bufio.Writer, r *u.Rng, idx int, dist map[string]int) {
 				choice = 2
 				wantFlight--
 			} else {
-				choice = int(r.Pick(0, 0, 1, 2, 2, 2, 3, 3, 4, 5))
+				choice = int(r.Pick(0, 0, 1, 2, 2, 2, 3, 3, 4, 5, 6))
 			}
 		default:
-			choice = int(r.Pick(0, 0, 1, 2, 2, 2, 2, 3, 4, 5))
+			choice = int(r.Pick(0, 0, 1, 2, 2, 2, 2, 3, 4, 5, 6))
 		}
 		switch choice {
 		case 0: // a client datagram arrives
@@ -345,6 +345,26 @@ func ampCase(w *bufio.Writer, r *u.Rng, idx int, dist map[string]int) {
 			opsS = append(opsS, u.App("Other", u.App("TS", u.B(ts.OutI), u.B(ts.OutH), u.B(ts.OutA), u.Z(ts.LastAEI), u.Z(ts.LastAEH),
 				u.Z(ts.PTOCount), u.Z(ts.NumProbes), u.Z(ts.PTOMode), u.Z(ts.PTO0), u.Z(ts.Alarm))))
 			human = append(human, fmt.Sprintf("AckAll(%d)", lvl))
+			record(-1, false)
+		case 6: // the crypto setup reports new read keys: the buffered undecryptable packets are handled again
+			queued := cn.QueuedUndecryptable()
+			stats, err := cn.ReadKeysAvailable()
+			if err != nil {
+				fmt.Fprintf(w, "INFO\tamplification: replay of undecryptable packets returned %v\n", err)
+			}
+			ts := a.TimerState()
+			opsS = append(opsS, u.App("Other", u.App("TS", u.B(ts.OutI), u.B(ts.OutH), u.B(ts.OutA), u.Z(ts.LastAEI), u.Z(ts.LastAEH),
+				u.Z(ts.PTOCount), u.Z(ts.NumProbes), u.Z(ts.PTOMode), u.Z(ts.PTO0), u.Z(ts.Alarm))))
+			human = append(human, fmt.Sprintf("ReadKeys(replay %v)", queued))
+			dist["read-keys"]++
+			if len(queued) > 0 {
+				dist["read-keys-nonempty"]++
+			}
+			// M8: a packet that was buffered because its keys were missing arrived in a datagram that was already
+			// credited; handling it again must not credit its bytes a second time
+			if int64(stats) != mRcvd {
+				monfail("amplification/replay-credited-again", fmt.Sprintf("after replaying %d buffered undecryptable packets %v ConnectionStats.BytesReceived=%d, but only %d bytes ever arrived in datagrams", len(queued), queued, stats, mRcvd))
+			}
 			record(-1, false)
 		}
 	}
